@@ -70,6 +70,7 @@ func runFrames(c *mon.Case, r *mon.Run, dir string, victim string, specs []frame
 	var rc *o4.RefConn
 	var verr, rerr error
 	var victimHalf *memwire.Half // the half the victim reads from
+	var vdone chan struct{}       // client-coalesced: closed when Dial has returned
 	switch victim {
 	case "server":
 		sf, err := o4.ServerFactory(dir, b)
@@ -88,14 +89,31 @@ func runFrames(c *mon.Case, r *mon.Run, dir string, victim string, specs []frame
 		vconn, verr = o4.DialReal(cw, b.ClientArgsCert())
 		<-done
 		victimHalf = sw.Out()
+	case "client-coalesced":
+		// the tampered frames reach the client in the same segment as the
+		// server's handshake response: hold the server->client direction back
+		// until everything has been written
+		sw.Out().Pause(true)
+		done := make(chan struct{})
+		c.Go(func() { close(done) }, func() { rc, _, _, rerr = o4.RefAccept(sw, b, rng, rng.IntN(200)) })
+		vdone = make(chan struct{})
+		c.Go(func() { close(vdone) }, func() { vconn, verr = o4.DialReal(cw, b.ClientArgsCert()) })
+		<-done
+		victimHalf = sw.Out()
+		if rerr != nil {
+			sw.Out().Pause(false)
+			<-vdone
+		}
 	}
-	if verr != nil || rerr != nil {
+	if vdone == nil && (verr != nil || rerr != nil) || rerr != nil {
 		c.Violation("setup/handshake", fmt.Sprintf("victim err=%v reference err=%v", verr, rerr), nil)
 		cw.Close()
 		sw.Close()
 		return
 	}
-	victimHalf.SetPolicy(chunk(chunkIdx, seed))
+	if vdone == nil {
+		victimHalf.SetPolicy(chunk(chunkIdx, seed))
+	}
 	// build the original frames
 	var frames [][]byte
 	var masks []uint16
@@ -140,9 +158,32 @@ func runFrames(c *mon.Case, r *mon.Run, dir string, victim string, specs []frame
 			}
 		}
 	}
-	// victim application: read until the first error, then a few more times
 	var mu sync.Mutex
 	res.mismatch = -1
+	if vdone != nil {
+		// everything (response, seed frame, tampered frames) goes out before the
+		// client may read any of it
+		if _, err := rc.Conn.Write(stream); err != nil {
+			c.Violation("setup/send", err.Error(), nil)
+		}
+		if eof {
+			rc.Conn.Close()
+		}
+		sw.Out().Pause(false)
+		<-vdone
+		if verr != nil {
+			// the damage was met while the handshake tail was decoded: Dial
+			// reports the error and nothing is delivered
+			res.err = verr
+			cw.Close()
+			sw.Close()
+			r.Count("coalesced_damage_reported_by_dial", 1)
+			ok = true
+			return
+		}
+		r.Count("coalesced_dial_completed", 1)
+	}
+	// victim application: read until the first error, then a few more times
 	readerDone := make(chan struct{})
 	c.Go(func() { close(readerDone) }, func() {
 		// the application's read buffer size matters: errors must surface
@@ -177,12 +218,14 @@ func runFrames(c *mon.Case, r *mon.Run, dir string, victim string, specs []frame
 			r.Distinct("app_read_buffer_sizes", fmt.Sprint(len(buf)))
 		}
 	})
-	sender := rc.Conn
-	if _, err := sender.Write(stream); err != nil {
-		c.Violation("setup/send", err.Error(), nil)
-	}
-	if eof {
-		sender.Close()
+	if vdone == nil {
+		sender := rc.Conn
+		if _, err := sender.Write(stream); err != nil {
+			c.Violation("setup/send", err.Error(), nil)
+		}
+		if eof {
+			sender.Close()
+		}
 	}
 	synctest.Wait()
 	mu.Lock()
@@ -602,7 +645,7 @@ func TestCheck(t *testing.T) {
 			sort.Ints(bits)
 		}
 		for blk := 0; blk*64 < len(bits); blk++ {
-			for _, victim := range []string{"server", "client"} {
+			for _, victim := range []string{"server", "client", "client-coalesced"} {
 				si, sc, blk, victim := si, sc, blk, victim
 				chunkBits := bits[blk*64 : min(len(bits), blk*64+64)]
 				r.Bubble(fmt.Sprintf("bit/%s/size%d/blk%03d", victim, flen, blk), func(c *mon.Case) {
@@ -630,7 +673,7 @@ func TestCheck(t *testing.T) {
 	for rep := 0; rep < reps; rep++ {
 		cs := structural(mon.NewRand(r.Sub("struct", rep)))
 		for blk := 0; blk*24 < len(cs); blk++ {
-			for _, victim := range []string{"server", "client"} {
+			for _, victim := range []string{"server", "client", "client-coalesced"} {
 				rep, blk, victim := rep, blk, victim
 				part := cs[blk*24 : min(len(cs), blk*24+24)]
 				r.Bubble(fmt.Sprintf("struct/%s/rep%d/blk%03d", victim, rep, blk), func(c *mon.Case) {
